@@ -279,6 +279,55 @@ Theorem C15_flag_from_bits_value E raw m : 0 <= raw -> fbound E <> CONFORM ->
 Proof. exact (flag_from_bits_value E raw m). Qed.
 Print Assumptions C15_flag_from_bits_value.
 
+(* ---------------------------------------------------------------- Layout.const, every initialiser kind
+   Field initialisers: int (XVal), enumeration member (XVal of its value), nested mapping / sequence (XMap),
+   amaranth hdl.Const of ANY width/signedness (XConst: taken as it is; only the field-width mask of the loop
+   reduces it), lib.data.Const (XDConst: accepted iff the layouts compare equal).
+   All layouts, all mixed initialiser mappings naming pairwise non-overlapping fields, every initialised key:
+   an hdl.Const (cv, c) reads back as norm field_shape (norm c cv) — a narrow negative constant is sign-extended,
+   a wide one is truncated to the field and (the result being read through the neighbours' own slices, which this
+   theorem also covers) does not spill. *)
+Theorem C15_const_any_initialiser l kvs v k x : wf_layout l = true ->
+  xlayout_const l (XMap kvs) = Okz v -> keys_disjoint l (map fst kvs) = true -> In (k, x) kvs ->
+  0 <= v < 2 ^ layout_size l /\
+  exists off sub, field_of l k = Some (off, sub) /\ xreadback l v k sub x.
+Proof.
+  intros Hwf Hc Hkd Hin. split; [apply (xlayout_const_range l _ v Hwf Hc)|].
+  destruct (xconst_field_roundtrip l kvs v k x Hwf Hc Hkd Hin) as (off & sub & fv & Hfo & Hfi & Hg).
+  exists off, sub. split; auto. apply (xreadback_pack l v k off sub fv x Hwf Hfo Hfi Hg).
+Qed.
+Print Assumptions C15_const_any_initialiser.
+
+(* arbitrary overlaps (flexible layouts): the initialiser written LAST fully determines its own field —
+   a narrow constant completely overwrites whatever an overlapping field stored earlier *)
+Theorem C15_const_last_initialiser_wins l kvs k x v : wf_layout l = true ->
+  xlayout_const l (XMap (kvs ++ [(k, x)])) = Okz v ->
+  exists off sub, field_of l k = Some (off, sub) /\ xreadback l v k sub x.
+Proof.
+  intros Hwf Hc. destruct (xconst_last_wins l kvs k x v Hwf Hc) as (off & sub & fv & Hfo & Hfi & Hg).
+  exists off, sub. split; auto. apply (xreadback_pack l v k off sub fv x Hwf Hfo Hfi Hg).
+Qed.
+Print Assumptions C15_const_last_initialiser_wins.
+
+(* the int-only model used above is the XVal/XMap fragment of the loop *)
+Theorem C15_const_fold_is_generic rec l kvs cur : const_fold rec l kvs cur = gfold (field_init rec) l kvs cur.
+Proof. exact (const_fold_gfold rec l kvs cur). Qed.
+Print Assumptions C15_const_fold_is_generic.
+
+Example C15_const_mixed_example :
+  let l := Struct [(0, Leaf (Sh 4 true)); (1, Leaf (Sh 3 false)); (2, Leaf (Sh 2 true))] in
+  let i := XMap [(0, XConst (-1) (Sh 2 true)); (1, XConst 255 (Sh 8 false)); (2, XConst 3 (Sh 2 false))] in
+  wf_layout l = true /\ keys_disjoint l [0; 1; 2] = true /\ xlayout_const l i = Okz 511 /\
+  const_getitem l 511 0 = Ok (Leaf (Sh 4 true)) (-1) /\ const_getitem l 511 1 = Ok (Leaf (Sh 3 false)) 7 /\
+  const_getitem l 511 2 = Ok (Leaf (Sh 2 true)) (-1) /\
+  (* flexible layout: wide field first, then a narrow constant into the overlapping signed(4) field at bit 2 *)
+  xlayout_const (Flex 8 [(0, (0, Leaf (Sh 8 false))); (1, (2, Leaf (Sh 4 true)))])
+                (XMap [(0, XVal 255); (1, XConst 1 (Sh 2 false))]) = Okz 199 /\
+  (* lib.data.Const of an equal (flexible) layout into a struct-shaped field; a different layout is refused *)
+  xlayout_const (Struct [(0, ex_inner)]) (XMap [(0, XDConst (Flex 4 [(1, (2, Leaf (Sh 2 true))); (0, (0, Leaf (Sh 2 false)))]) 9)]) = Okz 9 /\
+  xlayout_const (Struct [(0, ex_inner)]) (XMap [(0, XDConst (Struct [(0, Leaf (Sh 4 false))]) 9)]) = Errz 3.
+Proof. vm_compute. repeat split. Qed.
+
 (* ================================================================ translated source (translator unit "data")
    coq/Gen/DataGen.v is regenerated from the current text of /repo/amaranth/lib/data.py and lib/enum.py on every
    run; each generated function equals the hand model used above (Proofs/GenEqData.v).  LS = layout_size is the
